@@ -214,6 +214,38 @@ func c03Run(r *core.Run, p C03Case) {
 		}
 		data := ref.EncodeXZStream(ref.CheckCRC32, []ref.XZBlockSpec{{LZMA2: lz2, Plain: plain, DictCode: dictCodeFor(len(plain) + 1)}})
 		c03Judge(r, p, data, plain, "ops", fmt.Sprintf("fill(%d) then %s, props %v", p.Fill, symsString(p.Syms), pr))
+	case "runs":
+		// a run of Fill bytes 'a' (literal, then matches of 273 bytes at distance 1), a run of 9000
+		// bytes 'b', a short tail - decoded with a 4 KiB dictionary: the maximal matches arrive at
+		// every phase of the reader's ring buffer (Fill sweeps 300 consecutive lengths)
+		var ops []ref.Op
+		run := func(b byte, n int) {
+			ops = append(ops, ref.Op{Kind: ref.OpLit, Byte: b})
+			for n--; n > 0; {
+				l := n
+				if l > 273 {
+					l = 273
+				}
+				if l == 1 {
+					ops = append(ops, ref.Op{Kind: ref.OpLit, Byte: b})
+				} else {
+					ops = append(ops, ref.Op{Kind: ref.OpMatch, Len: l, Dist: 1})
+				}
+				n -= l
+			}
+		}
+		run('a', p.Fill)
+		run('b', 9000)
+		for _, c := range []byte("tail") {
+			ops = append(ops, ref.Op{Kind: ref.OpLit, Byte: c})
+		}
+		pr := ref.Props{LC: p.Props[0], LP: p.Props[1], PB: p.Props[2]}
+		lz2, plain, err := encodeOpsLZMA2(ops, pr)
+		if err != nil {
+			panic("C03 generator (runs): " + err.Error())
+		}
+		data := ref.EncodeXZStream(ref.CheckCRC32, []ref.XZBlockSpec{{LZMA2: lz2, Plain: plain, DictCode: 0}})
+		c03Judge(r, p, data, plain, "long-runs", fmt.Sprintf("run of %d x 'a', run of 9000 x 'b', tail; matches of 273 bytes at distance 1; ReaderConfig.DictCap=%d", p.Fill, p.DictCap))
 	case "walk":
 		// a fixed long operation walk (seed in Fill) x property set: trained contexts everywhere
 		ops := longWalk(p.Fill, 4000)
@@ -414,7 +446,7 @@ func c03Hetero(r *core.Run, p C03Case) {
 func runC03(r *core.Run) {
 	corpus := bindRef(r)
 	th := thorough(r)
-	r.Rule = "streams from the specification-driven generator: (a) ALL legal operation sequences of depth d over {lit x3, match(len x dist incl. the window edge), rep0 x2, shortrep, rep1-3} from the empty window and after fill prefixes 127/4095/4096/4097 (extended distances covering every distance-slot class); (b) a fixed op list x all 75 property sets; (b2) eight fixed long operation walks (4000 operations each: trained contexts) x all 75 property sets; (c) every split into <=3 chunks x every legal chunk kind per position with different properties; (d) 4 checks x size fields x header padding x {0,1,2,3 blocks, empty block}, every legal block header size 12..1024, 127..300 blocks; (d2) every list of 1..3 blocks over a menu of 5 blocks with different dictionary sizes, properties, far matches, raw chunks, empty; (f) chunk size fields at their limits (65536 / 65535 compressed bytes, 2 MiB / 2 MiB-1 uncompressed, raw chunks of 65536 and 1 bytes, a single-literal chunk); (e) the frozen liblzma corpus and fresh liblzma encodings x ReaderConfig.DictCap. states = LZMA coder states entered; transitions = (state, op kind), distance-slot/length classes, chunk-automaton steps; non-trivial = distinct (case family, outcome, empty?)"
+	r.Rule = "streams from the specification-driven generator: (a) ALL legal operation sequences of depth d over {lit x3, match(len x dist incl. the window edge), rep0 x2, shortrep, rep1-3} from the empty window and after fill prefixes 127/4095/4096/4097 (extended distances covering every distance-slot class); (b) a fixed op list x all 75 property sets; (b3) long runs (maximal matches at distance 1) whose length sweeps 300 consecutive values around the 4 KiB reader dictionary; (b2) eight fixed long operation walks (4000 operations each: trained contexts) x all 75 property sets; (c) every split into <=3 chunks x every legal chunk kind per position with different properties; (d) 4 checks x size fields x header padding x {0,1,2,3 blocks, empty block}, every legal block header size 12..1024, 127..300 blocks; (d2) every list of 1..3 blocks over a menu of 5 blocks with different dictionary sizes, properties, far matches, raw chunks, empty; (f) chunk size fields at their limits (65536 / 65535 compressed bytes, 2 MiB / 2 MiB-1 uncompressed, raw chunks of 65536 and 1 bytes, a single-literal chunk); (e) the frozen liblzma corpus and fresh liblzma encodings x ReaderConfig.DictCap. states = LZMA coder states entered; transitions = (state, op kind), distance-slot/length classes, chunk-automaton steps; non-trivial = distinct (case family, outcome, empty?)"
 	var cases []C03Case
 	def := [3]int{3, 0, 2}
 	// (a) operation sequences, enumerated inside the workers (not materialised)
@@ -504,7 +536,7 @@ func runC03(r *core.Run) {
 			cases = append(cases, C03Case{Kind: "ops", Fill: 200, Syms: fixed, Props: pr, DictCap: dc})
 		}
 	}
-	// (b2) eight fixed long operation walks x all 75 property sets
+	// (b3) long runs (maximal matches at distance 1) whose length sweeps 300 consecutive values around the 4 KiB reader dictionary; (b2) eight fixed long operation walks x all 75 property sets
 	for seed := 0; seed < 8; seed++ {
 		for _, pr := range allProps2() {
 			dc := 4096
@@ -513,6 +545,13 @@ func runC03(r *core.Run) {
 			}
 			cases = append(cases, C03Case{Kind: "walk", Fill: seed, Props: pr, DictCap: dc})
 		}
+	}
+	// (b3) long runs at every phase of a 4 KiB reader dictionary
+	for n := 4097; n < 4397; n++ {
+		cases = append(cases, C03Case{Kind: "runs", Fill: n, Props: def, DictCap: 4096})
+	}
+	for n := 8190; n < 8470; n += 3 {
+		cases = append(cases, C03Case{Kind: "runs", Fill: n, Props: [3]int{0, 2, 0}, DictCap: 4096})
 	}
 	// (c) chunk layouts
 	for _, s1 := range []int{1, 30} {
